@@ -755,7 +755,7 @@ theorem convert_telegram_only_documented_error (url : Str) :
       intro e h
       exfalso
       simp only [convert_telegram_url_to_public, hs, ht, Bool.not_true, Bool.false_eq_true, if_false,
-        bind, Except.bind, pure, Except.pure] at h
+        pure, Except.pure] at h
       split at h
       · obtain ⟨x, hx⟩ := getLastE_ne_nil _ (splitOnce_ne_nil
           (urlunsplit20 sp.scheme (subAnchored Gen.C19Small.TELEGRAM_PUBLIC_REPLACE_RE "t.me/s".toList sp.netloc)
@@ -829,7 +829,7 @@ theorem sRoute_nonempty_partial (path : List Str) (he : Ends path) (hm : ¬ Empt
       simp only [getIdx, List.getElem?_cons_zero, List.getElem?_cons_succ, bind, Except.bind,
         List.length_cons, List.length_nil, pure, Except.pure] at h
       split at h
-      · simp only [Nat.zero_add, Nat.reduceAdd, if_true] at h
+      · simp only [if_true] at h
         injection h with h
         injection h with h
         rw [← h]
